@@ -45,6 +45,30 @@ Definition seek_cur (s : hc) (position io : Z) : hc * list ext :=
   else let count := clampio io (position - (hend s - indx s)) in
        (mkh (hend s + count) (hend s + count) len1, [W (hend s) (hend s + count)]).
 
+(** header_seek (SEEK_CUR) when the input is a pipe: a jump too large to cache becomes a read-and-discard loop in pieces of at
+    most 16 KiB.  [delivered] is what each psf_fread returned -- the loop does not look at it.  Result: calls, bytes requested,
+    bytes still to skip. *)
+Definition JUNK : Z := 16384.
+Fixpoint skip_loop (fuel : nat) (skip : Z) (delivered : list Z) (calls requested : Z) : Z * Z * Z :=
+  if skip <=? 0 then (calls, requested, skip) else
+  match fuel with
+  | O => (calls, requested, skip)
+  | S f => let t := Z.min skip JUNK in skip_loop f (skip - t) (tl delivered) (calls + 1) (requested + t)
+  end.
+Definition pipe_skip (skip : Z) (delivered : list Z) : Z * Z * Z := skip_loop (Z.to_nat (skip / JUNK + 1)) skip delivered 0 0.
+
+(** the cache state after the seek, and (read calls, bytes requested from the I/O layer) *)
+Definition seek_cur_pipe (s : hc) (position io : Z) : hc * (Z * Z) :=
+  let len1 := if hlen s <=? indx s + position then snd (bump (hlen s) position) else hlen s in
+  if indx s + position <? 0 then (mkh (indx s) (hend s) len1, (0, 0))
+  else if len1 <=? indx s then (mkh (indx s) (hend s) len1, (0, 0))
+  else if indx s + position <=? hend s then (mkh (indx s + position) (hend s) len1, (0, 0))
+  else if len1 <? indx s + position then
+    let '(c, r, _) := pipe_skip (position - (hend s - indx s)) [] in (mkh (hend s) (hend s) len1, (c, r))
+  else let want := position - (hend s - indx s) in
+       let count := clampio io want in
+       (mkh (hend s + count) (hend s + count) len1, (1, want)).
+
 Inductive op := ORead (bytes io : Z) | OSet (position io : Z) | OCur (position io : Z).
 Definition step (s : hc) (o : op) : hc * list ext :=
   match o with
